@@ -50,6 +50,8 @@ func AttesterSlashingType(spec *common.Spec) *ContainerTypeDef {
 type AttesterSlashings []AttesterSlashing
 
 func (a *AttesterSlashings) Deserialize(spec *common.Spec, dr *codec.DecodingReader) error {
+	// decode into a recycled object: drop what it holds (dr.List appends)
+	*a = (*a)[:0]
 	return dr.List(func() codec.Deserializable {
 		i := len(*a)
 		*a = append(*a, AttesterSlashing{})
